@@ -10,7 +10,8 @@ unsigned long g_bits_read;
 unsigned long g_bits_written;
 
 /* representation invariant of a read-side oggpack_buffer */
-#define INV_OPB(b) ((b)->storage >= 0 && (b)->endbyte >= 0 && (b)->endbyte <= (b)->storage && \
+/* storage comes from oggpack_readinit(b,buf,int bytes): it never exceeds INT_MAX */
+#define INV_OPB(b) ((b)->storage >= 0 && (b)->storage <= 0x7fffffffL && (b)->endbyte >= 0 && (b)->endbyte <= (b)->storage && \
                     (b)->endbit >= 0 && (b)->endbit < 8)
 
 long oggpack_read(oggpack_buffer *b, int bits)
